@@ -176,6 +176,9 @@ func classify(c Case) (bool, []string) {
 	if c.Main.total() == 1 {
 		cl = append(cl, "single_record")
 	}
+	if len(c.Main.Sizes) >= 100 {
+		cl = append(cl, "hundreds_of_batches")
+	}
 	cl = append(cl, "final:"+c.Final.Op)
 	if empty {
 		cl = append(cl, "has_empty_batch")
@@ -221,7 +224,12 @@ func TestPropSingleStage(t *testing.T) {
 func TestPropPipeline(t *testing.T) {
 	rapid.Check(t, func(rt *rapid.T) {
 		var c Case
-		c.Main = genSrc(rt, "main", 8, 6, true)
+		if rapid.IntRange(0, 19).Draw(rt, "many_batches") == 0 {
+			// hundreds of small batches: re-sequencing buffers and counters far from their first values
+			c.Main = genSrc(rt, "main", rapid.IntRange(300, 1500).Draw(rt, "nbatches_max"), 3, false)
+		} else {
+			c.Main = genSrc(rt, "main", 8, 6, true)
+		}
 		depth := rapid.IntRange(0, 4).Draw(rt, "depth")
 		fragmented, pooled := false, false
 		for i := 0; i < depth; i++ {
@@ -254,6 +262,9 @@ func TestPropPipeline(t *testing.T) {
 			}
 		}
 		genEnv(rt, &c)
+		if len(c.Main.Sizes) >= 100 {
+			c.Jitter = 0 // the perturbation sleeps at every push: pointless and slow on hundreds of batches
+		}
 		runCase(rt, c)
 	})
 }
